@@ -324,3 +324,62 @@ func TestC06(t *testing.T) {
 		}
 	})
 }
+
+// TestC06Big: files of 64 KiB .. 1 MiB, where the unmatched head, gaps and tail the
+// splice has to copy are far longer than any buffer. `top n` commands whose matches
+// lie near the start keep the search cheap (the scan stops after the n-th match);
+// the copy of the rest is what is exercised.
+func TestC06Big(t *testing.T) {
+	seedNote(t)
+	StartWatchdog("C06", 120*time.Second)
+	st := NewStats("C06", "big", "exhaustive over (size, command, mode): files of 65535..65637, 70000, 131072, 131073, 150000 bytes (thorough: also 1 MiB + 3) made of numbered lines x {replace top 1 of a token on the first line by a longer / shorter / empty text, replace top 2 of a token on lines 1 and 2, a replace with no match (sizes <= 150000), replace last 1 of a token that occurs on every 500th line} x {NOTHING, NEW, OVERWRITE}, with a stale longer .vored present; oracle: the splice recomputed from the returned matches; every case non-trivial; distinct by (size, command, mode)")
+	st.Exhaustive = true
+	defer st.Write()
+	sizes := []int{65535, 65536, 65537, 65637, 70000, 131072, 131073, 150000}
+	if tier() == "thorough" {
+		sizes = append(sizes, 1<<20+3)
+	}
+	nshards := envInt("VERIF_NSHARDS", 1)
+	shardIdx := envInt("VERIF_SHARD_INDEX", 0)
+	for si, size := range sizes {
+		if si%nshards != shardIdx {
+			continue
+		}
+		var b strings.Builder
+		b.WriteString("VERSION=1 of the file\n")
+		for i := 0; b.Len() < size; i++ {
+			if i%500 == 499 {
+				fmt.Fprintf(&b, "line %06d MARK and some filler text to make the line longer\n", i)
+			} else {
+				fmt.Fprintf(&b, "line %06d and some filler text to make the line a bit longer\n", i)
+			}
+		}
+		content := b.String()[:size]
+		cmds := []string{
+			"replace top 1 'VERSION=1' with 'VERSION=1.0.1-rc2'",
+			"replace top 1 'VERSION=1' with 'V'",
+			"replace top 1 'VERSION=1 ' with ''",
+			"replace top 2 'line ' with '<' value '>'",
+		}
+		if size <= 150000 {
+			cmds = append(cmds, "replace all 'no such token' with 'x'", "replace last 1 'MARK' with 'THE LAST MARK'")
+		}
+		for _, cmd := range cmds {
+			for _, mode := range []string{"NOTHING", "NEW", "OVERWRITE"} {
+				c := FileCase{Src: cmd, Content: content, Mode: mode, HasStale: true, Stale: strings.Repeat("stale ", size/5)}
+				st.Eval()
+				SetInflight(func() string { return jsonStr(Failure{Property: "C06", Kind: "file", Case: c}) })
+				sig, what, discard, _, _ := checkFileCase(c)
+				ClearInflight()
+				if discard {
+					st.Count("discarded_vm_budget")
+					continue
+				}
+				if sig != "" {
+					Fail(t, Failure{Property: "C06", Kind: "file", What: clipMsg(what, 600), Case: c, Sig: sig})
+				}
+				st.NonTrivial(fmt.Sprint(size, cmd, mode), func() any { return map[string]any{"size": size, "command": cmd, "mode": mode} })
+			}
+		}
+	}
+}
